@@ -165,8 +165,8 @@ Lemma same_frame_set_emitted f m : same_frame f (set_emitted f m).
 Proof. unfold same_frame; cbn; tauto. Qed.
 
 (* the inner loop of claim *)
-Lemma claim_epochs_spec fuel : forall e cur count ea ee awh snap s s',
-  claim_epochs fuel e cur count ea ee awh snap s = Ok s' ->
+Lemma claim_epochs_spec v fuel : forall e cur count ea ee awh snap s s',
+  claim_epochs v fuel e cur count ea ee awh snap s = Ok s' ->
   same_frame (l_flow s) (l_flow s') /\
   (exists extra, l_rewards s' = l_rewards s ++ extra /\ f_claimed (l_flow s') = f_claimed (l_flow s) + sumZ extra) /\
   (f_claimed (l_flow s) <= ea -> f_claimed (l_flow s') <= ea).
@@ -181,17 +181,18 @@ Proof.
     { intros s0 E1 E2. inversion E1; subst. split; [apply same_frame_refl|]. split; [exists []; rewrite app_nil_r; cbn; split; [reflexivity|lia]|tauto]. }
     destruct (cur <? e); [eapply Hdone; eauto|].
     destruct (CLAIM_CAP <? count + 1); [eapply Hdone; eauto|].
-    destruct (e <? f_start (l_flow s)); [eapply IH; eauto|].
+    destruct (e <? f_start (l_flow s)).
+    { destruct (if v_skip_scan v then aget e awh else None) as [w0|]; [|eapply IH; eauto]. apply IH in H. cbn in H. exact H. }
     destruct (ee <=? e); [eapply Hdone; eauto|].
     apply bind_ok in H as [[emission emitted] [Eem H]].
     apply bind_ok in H as [f1 [Ef1 H]].
     assert (Hf1 : same_frame (l_flow s) f1 /\ f_claimed f1 = f_claimed (l_flow s)).
     { destruct (aget e (f_emitted (l_flow s))).
       - inversion Ef1; subst. split; [apply same_frame_refl|reflexivity].
-      - apply bind_ok in Ef1 as [v [_ Ef1]]. inversion Ef1; subst. split; [apply same_frame_set_emitted|reflexivity]. }
+      - apply bind_ok in Ef1 as [vv [_ Ef1]]. inversion Ef1; subst. split; [apply same_frame_set_emitted|reflexivity]. }
     destruct Hf1 as [Hfr Hcl].
     (* every continuation runs the loop on a state whose flow is f1 or f1 with claimed advanced *)
-    assert (Hcont : forall lu lw, claim_epochs fuel (e + 1) cur (count + 1) ea ee awh snap (mkLoop f1 lu lw (l_rewards s) (l_log s)) = Ok s' ->
+    assert (Hcont : forall lu lw, claim_epochs v fuel (e + 1) cur (count + 1) ea ee awh snap (mkLoop f1 lu lw (l_rewards s) (l_log s)) = Ok s' ->
               same_frame (l_flow s) (l_flow s') /\
               (exists extra, l_rewards s' = l_rewards s ++ extra /\ f_claimed (l_flow s') = f_claimed (l_flow s) + sumZ extra) /\
               (f_claimed (l_flow s) <= ea -> f_claimed (l_flow s') <= ea)).
@@ -221,15 +222,15 @@ Qed.
 
 (* the outer loop of claim: flows keep their frame, claimed stays within funded, and the messages pay exactly
    the increase of the claimed amounts, asset by asset *)
-Lemma claim_flows_spec fl : forall cur last awh snap user lw fl' ms lw',
-  claim_flows fl cur last awh snap user lw = Ok (fl', ms, lw') ->
+Lemma claim_flows_spec v fl : forall cur last awh snap user lw fl' ms lw',
+  claim_flows v fl cur last awh snap user lw = Ok (fl', ms, lw') ->
   Forall2 (fun f g => same_frame f g /\ (f_claimed f <= flow_funded f -> f_claimed g <= flow_funded g)) fl fl' /\
   (forall x s, msdelta ms x s = (flows_out s fl - flows_out s fl') * (ind x user - ind x SELF)).
 Proof.
   induction fl as [|f r IH]; intros cur last awh snap user lw fl' ms lw' H.
   - cbn in H. inversion H; subst. split; [constructor|]. intros; cbn; lia.
   - cbn [claim_flows] in H.
-    assert (Hskip : forall x0, claim_flows r cur last awh snap user lw = Ok x0 ->
+    assert (Hskip : forall x0, claim_flows v r cur last awh snap user lw = Ok x0 ->
                       (let '(r', ms0, lw0) := x0 in Ok (f :: r', ms0, lw0)) = Ok (fl', ms, lw') ->
               Forall2 (fun f g => same_frame f g /\ (f_claimed f <= flow_funded f -> f_claimed g <= flow_funded g)) (f :: r) fl' /\
               (forall x s, msdelta ms x s = (flows_out s (f :: r) - flows_out s fl') * (ind x user - ind x SELF))).
